@@ -328,7 +328,7 @@ def file_name_obligation(repo, log):
     body = lx.strip_comments(text[bo:bc + 1])
     m = re.search(r"name\.chars\(\)\.map\(\|\s*(\w+)\s*\|", body)
     if not m:
-        if "chars()" not in body:
+        if "chars()" not in body and re.search(r'format!\(\s*"/tmp/\{(?:name)?\}\.mmap"\s*(?:,\s*name\s*)?\)', body):
             # the name is used as it is: trivially injective
             log["R15-file-name"] = log.get("R15-file-name", 0) + 1
             return ("pub open spec fn file_name_char(c: char) -> char { c }\n"
